@@ -68,6 +68,8 @@ def okLifted (c : Location) (levels : List SLevel) (k : Nat) (ans : Option Locat
         else sortNat got == sortNat want
       -- sequence preservation (when both ends carry sequence and everything is directional)
       let seqOk :=
+        -- only when EVERY crossed level carries sequence (otherwise nothing relates the two ends)
+        if ¬ (levels.take (k + 1)).all (fun l => l.seq.isSome) then true else
         match (levels[0]?).bind (·.seq), (levels[k]?).bind (·.seq) with
         | some s0, some sk =>
           if allNonOverlap c places ∧ wst ≠ .unstranded ∧ cst ≠ .unstranded then
@@ -120,10 +122,10 @@ def unchunkBlk (w : Blk) (wst : Strand) (r : Blk) : Blk :=
     the non-empty clips of `l`'s blocks (block structure kept: adjacent blocks stay separate), and its
     strand is `l.strand` relative to the chunk's. -/
 def okChunkDown (l : Location) (w : Blk) (wst : Strand) (ans : Option Location) (keepBlocks : Bool := true) : Bool :=
+  if wst = .unstranded ∨ w.2 ≤ w.1 then true else        -- a chunk holds at least one base
   match l with
   | .empty => ans == some .empty
   | _ =>
-    if wst = .unstranded ∨ w.2 ≤ w.1 then true else      -- a chunk holds at least one base
     let clips := (locationBlocks l).filterMap (clip w)
     match ans with
     | none => false
